@@ -50,6 +50,9 @@ type ABlock struct {
 	Abandon  int     `json:"abandoned_rounds,omitempty"` // PrepareProposal rounds prepared and dropped before the real one
 	FailEth  bool    `json:"failing_eth_block,omitempty"`
 	Evidence []int   `json:"evidence_against,omitempty"` // validator key indexes
+	// age of that evidence relative to the block that carries it (0/0: the previous block)
+	EvAgeBlocks int64 `json:"evidence_age_blocks,omitempty"`
+	EvAgeSecs   int64 `json:"evidence_age_s,omitempty"`
 }
 
 func (b ABlock) String() string {
@@ -77,6 +80,9 @@ func (b ABlock) String() string {
 	}
 	if len(b.Evidence) > 0 {
 		s += fmt.Sprintf("[evidence %v]", b.Evidence)
+		if b.EvAgeBlocks != 0 || b.EvAgeSecs != 0 {
+			s += fmt.Sprintf("[aged %d blocks %d s]", b.EvAgeBlocks, b.EvAgeSecs)
+		}
 	}
 	if len(b.Absent) > 0 {
 		s += fmt.Sprintf("[absent %v]", b.Absent)
@@ -369,6 +375,10 @@ func (w *World) BuildMsg(e Event) (msg sdk.Msg, commit func()) {
 		if len(deps) == 0 {
 			return nil, nil
 		}
+		if e.Var == "twice-listed" {
+			cp := *deps[0]
+			deps = append(deps, &cp)
+		}
 		m := &bitcointypes.MsgNewDeposits{Proposer: rel.Proposer, Deposits: deps}
 		hs := make([]uint64, 0, len(hdrs))
 		for h := range hdrs {
@@ -483,6 +493,13 @@ func (w *World) BuildMsg(e Event) (msg sdk.Msg, commit func()) {
 		ids := append([]uint64{}, w.Bot.Canceling...)
 		if len(ids) > 32 {
 			ids = ids[:32]
+		}
+		if e.Var == "twice-listed" {
+			n := len(ids)
+			return &bitcointypes.MsgApproveCancellation{Proposer: rel.Proposer, Id: append(append([]uint64{}, ids...), ids[0])}, func() {
+				w.Bot.Canceling = w.Bot.Canceling[n:]
+				w.Bot.Refunded = append(w.Bot.Refunded, ids...)
+			}
 		}
 		return &bitcointypes.MsgApproveCancellation{Proposer: rel.Proposer, Id: ids}, func() {
 			w.Bot.Canceling = w.Bot.Canceling[len(ids):]
@@ -787,7 +804,7 @@ func (w *World) Run(b ABlock) *Result {
 	}
 	for _, i := range b.Evidence {
 		blk.Misbehavior = append(blk.Misbehavior, abci.Misbehavior{Type: abci.MisbehaviorType_DUPLICATE_VOTE,
-			Validator: abci.Validator{Address: w.ValKeys[i].Addr(), Power: 1}, Height: w.N.Height, Time: w.N.Time, TotalVotingPower: 10})
+			Validator: abci.Validator{Address: w.ValKeys[i].Addr(), Power: 1}, Height: w.N.Height - b.EvAgeBlocks, Time: w.N.Time.Add(-time.Duration(b.EvAgeSecs) * time.Second), TotalVotingPower: 10})
 	}
 	if b.Mode == "built" {
 		ethTx, _, err := w.N.BuildEthBlockTx(sim.EthBlockOpts{})
